@@ -479,6 +479,18 @@ def f10(tier):
                      P(('call', 'me', [O(-5)])), P(('call', 'me', [O(0)])), P(('call', 'me', [O(500)])), P(('call', 'me', [O(7)]))])
     C.append(base + [('decl', 'fv', 'I', O(3)), ('fn', 'usefv', [('k', 'I')], 'I', [('assign', 'fv', B('+', V('fv'), V('k'))), ('value', B('*', V('fv'), L(2)))]),
                      P(('call', 'usefv', [L(1)])), P(('call', 'usefv', [L(1)])), P(V('fv'))])
+    # inline: by-value parameters. The argument is a variable the callee itself changes (lexical, captured by the
+    # callee) — substituting the argument expression for the parameter would alias them.  All callee bodies of <= 3
+    # atoms over {change the variable, read the parameter, print the parameter}.
+    atoms = {'bump': ('assign', 'n', B('+', n, L(7))), 'read': ('assign', 'r', B('+', V('r'), V('a'))), 'show': P(V('a'))}
+    for k in (1, 2, 3):
+        for seq in itertools.product(sorted(atoms), repeat=k):
+            if 'bump' not in seq or seq == ('bump',) * k:
+                continue
+            body = [('decl', 'r', 'I', L(0))] + [atoms[x] for x in seq] + [('value', B('+', V('r'), V('a')))]
+            C.append([('decl', 'n', 'I', L(10)), ('fn', 'g', [('a', 'I')], 'I', body), P(('call', 'g', [n])), P(n)])
+    C.append([('decl', 'n', 'I', L(10)), ('fn', 'h', [('a', 'I')], 'I', [('decl', 't', 'I', L(0)), ('for', 'i', ('range', L(1), L(3)), [('assign', 'n', B('+', n, L(1))), ('assign', 't', B('+', V('t'), V('a')))]), ('value', V('t'))]),
+              P(('call', 'h', [n])), P(n)])
     # generators are always inlined: nested consumption with side effects
     C.append(base + [('decl', 's', 'I', L(0)), ('for', 'i', ('range', L(1), O(3)), [('for', 'j', ('range', V('i'), L(3)), [('assign', 's', B('+', B('*', s, L(2)), V('j')))])]), P(s)])
     # drop the opaque-value helper where a case does not use it (a dead local function next to a live one is a
@@ -486,7 +498,7 @@ def f10(tier):
     out = []
     for c in C:
         rest = c[2:]
-        if "'oz'" not in repr(rest) and "'one'" not in repr(rest):
+        if c[:2] == base and "'oz'" not in repr(rest) and "'one'" not in repr(rest):
             c = rest
         out.append(('MI', c))
     out += f10_dead_lexicals()
